@@ -495,4 +495,4 @@ def st_program(ctx: Ctx):
     )
 
 
-PARTS = [Part("programs", check_program, strategy=st_program, quick=1600, thorough=48000)]
+PARTS = [Part("programs", check_program, strategy=st_program, quick=4800, thorough=160000)]
